@@ -16,8 +16,8 @@ open TinkVerif.Gen.GlueFraming
 /-- `outputprefix.calculatePrefixBytes(startByte, id)` = startByte ‖ be32(id) -/
 theorem calculatePrefixBytes_eq (s : UInt8) (id : Nat) :
     Outputprefix.calculatePrefixBytes s id = s :: Bytes.be32 id := by
-  simp [Outputprefix.calculatePrefixBytes, Outputprefix.calculatePrefixBytes.prefix_3,
-    Outputprefix.calculatePrefixBytes.prefix_2, Outputprefix.calculatePrefixBytes.prefix', makeBytes, setAt, putBE, Bytes.be32]
+  simp [Outputprefix.calculatePrefixBytes, Outputprefix.calculatePrefixBytes.v3,
+    Outputprefix.calculatePrefixBytes.v2, Outputprefix.calculatePrefixBytes.v1, makeBytes, setAt, putBE, Bytes.be32]
 
 /-- `outputprefix.Tink` is the model's TINK prefix -/
 theorem outputprefix_Tink_eq (id : Nat) : Outputprefix.Tink id = outputPrefix .tink id := by
